@@ -25,7 +25,7 @@ def run(chk, wd, mode, abis=("wasm32", "ilp64")):
                 events.append({"e": "crash", "rc": p.returncode, "abi": a, "mode": mode})
             else:
                 raise vp.Broken("fetch_driver %s/%s rc=%d %s" % (mode, a, p.returncode, p.stderr[-300:]))
-    if len([e for e in events if e["e"] == "fetch"]) < 20:
+    if len([e for e in events if e["e"] == "fetch"]) < 8 * len(abis):
         raise vp.Broken("fetch_driver %s produced %d events" % (mode, len(events)))
     allp = os.path.join(wd, "fetch_%s_all.ndjson" % mode)
     vp.write_ndjson(allp, events)
